@@ -63,6 +63,21 @@ def skip_decision(ctx):
         for op, l, r in F.guard_compares(n, f)) for n in raises)
     ctx.ob(R, 'find_check_cache|only-when-lazy', ok, f.node,
            'a non-lazy regeneration can be aborted')
+
+    # skipping also requires that no recorded input is newer than the
+    # *oldest* recorded output (an output left behind by an interrupted
+    # run must not vouch for the others)
+    def newer(op, l, r):
+        a = has_call(l, 'max') and has(l, 'inputs') and has_call(
+            r, 'min') and has(r, 'outputs')
+        b = has_call(r, 'max') and has(r, 'inputs') and has_call(
+            l, 'min') and has(l, 'outputs')
+        return op == 'LtE' and a or op == 'GtE' and b
+    ok = bool(raises) and all(any(newer(op, l, r) for op, l, r in
+                                  F.guard_compares(n, f)) for n in raises)
+    ctx.ob(R, 'find_check_cache|newest-input-vs-oldest-output', ok, f.node,
+           'the skip decision does not compare the newest input with the '
+           'oldest output')
     lt = F.fn('bfg9000.build:load_toolchain')
     rl = F.calls_to(lt, 'reload', depth=1)
     ok = bool(rl) and all(param_of(e.recv(), 'env') and param_of(
